@@ -139,6 +139,14 @@ def rec_pairs(seed):
         if m is not None:
             d2[m] = 1e6
         pair('independent_of_masked_pixel_values', ap.do_photometry(d2, error=e, **kw)[0], fa)
+        if m is not None:      # the same for the error map: garbage and non-finite values under the mask
+            e2 = e.copy(); e2[m] = np.where(np.indices(e.shape)[0][m] % 2 == 0, np.nan, 1e9)
+            d2n = d.copy(); d2n[m] = np.nan
+            f2, ee2 = ap.do_photometry(d2n, error=e2, **kw)
+            pair('independent_of_masked_pixel_values', f2, fa)
+            pair('independent_of_masked_pixel_values', ee2, ea)
+            t4 = A.aperture_photometry(d2n, ap, error=e2, **kw)
+            pair('independent_of_masked_pixel_values', np.asarray(t4['aperture_sum_err']), ea)
         if method == 'center':
             wimg = np.zeros((h, w))
             for am in ap.to_mask(method='center'):
